@@ -16,7 +16,7 @@ func verifC01Opts(w *verifWorld) *Options {
 	if verifNondetBool("roots_nil") {
 		opts.RootsOfTrust = nil
 	}
-	opts.ExpectedUefiSha384 = verifOpt("want_len", verifNondetBytes("want", 2))
+	opts.ExpectedUefiSha384 = verifAnyLen("want_len", verifNondetBytes("want", 3))
 	if verifNondetBool("snp_opts") {
 		opts.SNP = &SNPOptions{ExpectedLaunchVMSAs: verifNondetU32("expected_vmsas")}
 		if verifNondetBool("snp_meas") {
